@@ -102,7 +102,7 @@ func c01Codec(c *lab.Ctx) {
 				c.Violation("request-id-decoded", "C01/"+name+"/request-id-misread",
 					fmt.Sprintf("%s: GetRequestId()=%d", rf.Desc, fr.GetRequestId()), witness(""))
 			}
-			mode := crng.Intn(4)
+			mode := crng.Intn(6)
 			switch mode {
 			case 0, 1: // (a)+(b): forward unchanged, with the id rewrite the proxy performs
 				newID := rf.ID
@@ -159,6 +159,49 @@ func c01Codec(c *lab.Ctx) {
 				enc := append([]byte(nil), out.Bytes()...)
 				c01CheckModified(c, name, rf, enc, rf.Headers, nb, false, witness)
 				c.Distinct(sig + "|setdata|" + lenClass(len(nb)))
+			case 4, 5: // (c) body replaced the way the proxy's filter API does it (SetRequestData / SetResponseData):
+				// the buffer handed out by GetData() is refilled IN PLACE and the same object is passed to SetData;
+				// mode 5 also modifies a header (bolt/boltv2) so the slow path is taken
+				d := fr.GetData()
+				if d == nil {
+					break
+				}
+				nb := crng.Bytes(genLen(crng, 70000))
+				if crng.Bool() {
+					nb = crng.Bytes(crng.Intn(2 * (len(rf.Body) + 1)))
+				}
+				d.Reset()
+				_, _ = d.ReadFrom(bytes.NewReader(nb))
+				fr.SetData(d)
+				wantHdr := rf.Headers
+				hdrMod := false
+				if mode == 5 && (name == "bolt" || name == "boltv2") {
+					k, v := "vk-inplace", crng.Alnum(1+crng.Intn(8))
+					fr.GetHeader().Set(k, v)
+					wantHdr = append(append([][2][]byte(nil), rf.Headers...), [2][]byte{[]byte(k), []byte(v)})
+					for i := range rf.Headers {
+						if string(rf.Headers[i][0]) == k {
+							wantHdr = append([][2][]byte(nil), rf.Headers...)
+							wantHdr[i] = [2][]byte{[]byte(k), []byte(v)}
+						}
+					}
+					hdrMod = true
+				}
+				out, err := p.Encode(ctx, fr)
+				if err != nil {
+					c.Count("modified-body-refused-with-error", 1)
+					break
+				}
+				enc := append([]byte(nil), out.Bytes()...)
+				witness2 := func(x string) map[string]interface{} {
+					w := witness(x)
+					w["how"] = "GetData().Reset(); GetData().ReadFrom(new body); SetData(same buffer)"
+					w["new_body_len"] = len(nb)
+					w["header_also_modified"] = hdrMod
+					return w
+				}
+				c01CheckModifiedSig(c, name, rf, enc, wantHdr, nb, "inplace-body", witness2)
+				c.Distinct(sig + fmt.Sprintf("|inplace|h=%v|%s", hdrMod, lenClass(len(nb))))
 			case 3: // (c) header modification (wire-level header block exists for bolt/boltv2 only)
 				if name != "bolt" && name != "boltv2" {
 					break
@@ -251,6 +294,10 @@ func c01CheckModified(c *lab.Ctx, name string, rf refFrame, enc []byte, wantHdr 
 	if hdrMod {
 		what = "headers"
 	}
+	c01CheckModifiedSig(c, name, rf, enc, wantHdr, wantBody, what, witness)
+}
+
+func c01CheckModifiedSig(c *lab.Ctx, name string, rf refFrame, enc []byte, wantHdr [][2][]byte, wantBody []byte, what string, witness func(string) map[string]interface{}) {
 	n, ok, err := refFrameLen(name, enc)
 	if name == "tars" && bytes.Equal(enc, wantBody) {
 		return // whole-frame reading of SetData: the caller is responsible for the frame it supplied
